@@ -1,7 +1,11 @@
 #!/bin/bash
 # Run once after a fresh restore (offline): build every harness binary.
+# Each binary is built with -p so that cargo feature unification matches what
+# ./check builds later (no rebuild at check time).
 set -eu
 cd "$(dirname "$0")/.."
 export CARGO_NET_OFFLINE=true
-(cd harness && cargo build --release --workspace 2>&1 | tail -3)
+for b in $(sed -n 's/.*BIN=\([a-z0-9_]*\).*/\1/p' check | sort -u); do
+  (cd harness && cargo build --release -p "$b" 2>&1 | tail -1)
+done
 echo "setup done"
